@@ -120,7 +120,10 @@ def handleGen (op : String) (j : Json) : Except String Json := do
         | _ => throw "bad query"
       let sup := fun (s k : String) => (s == "Variables" || s == "") && ini.vars.any (fun p => p.1 == Atsim.norm k)
       return Json.mkObj [("has", arrJ (qs.map fun q => Json.bool (raw_has_option Atsim.strip sup ini.sections "Variables" q.1 q.2))),
-                         ("xform", arrJ (qs.map fun q => Json.str (raw_optionxform Atsim.strip q.2)))]
+                         ("xform", arrJ (qs.map fun q => Json.str (raw_optionxform Atsim.strip q.2))),
+                         ("options", arrJ (qs.map fun q => match raw_options ini.sections ini.vars "Variables" q.1 with
+                            | .ok ks => arrJ (ks.map Json.str)
+                            | .error .noSection => Json.str "noSection"))]
   | "parse_params_section" =>
     -- ConfigParser._parse_params_section on a file given as lines: the parsed entries [key, value] of the named section (a key holding "bad" does not parse), or the error
     let lines ← (← getArr j "lines").mapM parseLine
